@@ -402,20 +402,7 @@ func strp(s *string) string {
 	return fmt.Sprintf("%q", *s)
 }
 
-func firstLine(s string) string {
-	if i := strings.IndexByte(s, '\n'); i >= 0 {
-		return s[:i]
-	}
-	return s
-}
 
-func vPKIX(pub interface{}) []byte {
-	der, err := x509.MarshalPKIXPublicKey(pub)
-	if err != nil {
-		panic(err)
-	}
-	return der
-}
 
 func c03RoleForm(pub interface{}, durText *string) url.Values {
 	form := url.Values{}
